@@ -524,12 +524,18 @@ func (vc *VC) writeM(st *State, addr *Term, size int64, v *Term) {
 		// unsigned view of v (v is in the range of its Go type by construction)
 		full := pow2(uint(size * 8))
 		u := B.Ite(B.Lt(v, B.Int(0)), B.Add(v, B.Big(full)), v)
+		var parts []*Term
 		for i := int64(0); i < size; i++ {
 			by := B.Div(u, B.Big(pow2(uint(8*i))))
 			if i < size-1 {
 				by = B.Mod(by, B.Int(256))
 			}
 			M = B.Store(M, B.Add(addr, B.Int(i)), by)
+			parts = append(parts, B.Mul(B.Big(pow2(uint(8*i))), by))
+		}
+		if !u.IsConst() {
+			// arithmetic identity (holds for every u >= 0): the bytes written recompose to the value
+			vc.fact(B.Implies(B.Le(B.Int(0), u), B.Eq(B.Add(parts...), u)))
 		}
 	}
 	vc.heapSet(st, "M", M)
@@ -557,7 +563,13 @@ func (vc *VC) loadLeaf(st *State, addr *Term, key string, lf Leaf) *Term {
 			return B.Ne(vc.readM(st, addr, 1, false), B.Int(0))
 		}
 		_, signed, _ := intInfo(lf.Typ)
-		return vc.readM(st, addr, lf.Size, signed)
+		v := vc.readM(st, addr, lf.Size, signed)
+		if isUnsafePtr(lf.Typ) && !v.IsConst() {
+			// Go's type invariant for a variable of type unsafe.Pointer (as for typed pointers): nil or
+			// an address in user space
+			vc.fact(vc.B.And(vc.B.Le(vc.B.Int(0), v), vc.B.Lt(v, vc.B.Big(maxAddr))))
+		}
+		return v
 	}
 	if lf.Kind == "bool" {
 		vc.sortOf[cls] = SArrIB
